@@ -188,6 +188,13 @@ func one(c *kit.Case, cfg sim.StackCfg, p params) {
 	}
 	muts := []mut{
 		{"port-capacity", func(x *sim.StackCfg) bool { x.PortBuf = orDef(x.PortBuf, 4) + 1; return true }},
+		{"port-capacity-smaller", func(x *sim.StackCfg) bool {
+			if orDef(x.PortBuf, 4) < 2 {
+				return false
+			}
+			x.PortBuf = orDef(x.PortBuf, 4) - 1
+			return true
+		}},
 		{"driver-spec", func(x *sim.StackCfg) bool { x.Drivers[0].NumReqs++; return true }},
 		{"driver-removed", func(x *sim.StackCfg) bool {
 			if len(x.Drivers) < 2 {
